@@ -204,6 +204,28 @@ class Program:
             if len(cands) == 1:
                 self._rename(cands[0], idt[3])
                 present.add(idt)
+        # a private FREE function that became a method (inherent, or of a private trait the table does not know) keeps its
+        # signature with the receiver as first parameter; several missing functions may share one signature (peek_blocking /
+        # peek_non_blocking), then the callee set recorded for the pinned function decides, if it decides uniquely
+        kc = mirinline.known_calls()
+
+        def fp(f):
+            return {'::'.join((c.get('str') or c.get('key') or '').split('::')[-2:]) for c in f.edges.get('calls', []) if 'drop' not in c}
+        for idt, (private, inputs, output) in sorted(sigs.items()):
+            if not private or idt in present or idt[1] or idt[2]:
+                continue
+            cands = [f for f in self.fns.values() if f.crate == idt[0] and f.has_body and f.dk in ('Fn', 'AssocFn') and f.vis != 'Public'
+                     and mirinline.ident(f) not in kn and f.inputs == inputs and f.output == output and f.key not in self.renamed
+                     and (not f.impl_trait or f.impl_trait.split('::')[0] in WORKSPACE)]
+            if len(cands) > 1 and kc.get(idt):
+                want = kc[idt]
+                scored = sorted(((len(want & fp(f)) / max(1, len(want | fp(f))), f.key, f) for f in cands), key=lambda x: (-x[0], x[1]))
+                cands = [scored[0][2]] if scored[0][0] > scored[1][0] and scored[0][0] >= 0.5 else []
+            if len(cands) == 1:
+                f = cands[0]
+                f.impl_trait = None
+                self._rename(f, idt[3], as_free=True)
+                present.add(idt)
 
     def _rename(self, f, canon, as_free=False):
         old = f.name
